@@ -1,4 +1,4 @@
-/* VH_LINK: kv
+/* VH_LINK: kv layout ref_codecs rm_manifest
  * hist.c - E2: explicit-state breadth-first exploration of operation histories
  * on the real lcdb (fresh in-memory FS + fresh handle per history, replayed),
  * with a boring reference model as oracle after every operation.
@@ -19,6 +19,7 @@
 #include <stdlib.h>
 #include <string.h>
 #include "kv.h"
+#include "layout.h"
 
 #define MAXDEPTH 20
 #define MAXALPHA 96
@@ -26,7 +27,9 @@
 static kcfg_t cfg;
 static kop_t alpha[MAXALPHA];
 static int nalpha;
-static int o_get, o_snap, o_iter, o_cursor, o_files;
+static int o_get, o_snap, o_iter, o_cursor, o_files, o_layout;
+static lay_stats_t lay_stats;
+static uint64_t n_reopen_layout_checks;
 static int cursor_len = 2, cursor_cap = 40;
 static const char *DB = "/vfs/db";
 
@@ -339,6 +342,8 @@ fail(exec_t *x, const char *sig, const char *msg) {
   snprintf(x->err, sizeof(x->err), "%s", msg);
 }
 
+static char *layout_before;
+
 static void
 body(void *arg) {
   exec_t *x = arg;
@@ -365,8 +370,41 @@ body(void *arg) {
       int lv[64];
       fs.nbefore = kv_parse_sstables(h.db, fs.before, lv, 64);
     }
+    if (o_layout && op->kind == OP_REOPEN) {
+      /* "closing and reopening a database whose write buffer is empty reproduces the same
+       * layout": the write buffer is empty iff the live (highest-numbered) log holds no record */
+      char names[256][64];
+      int nn = vfs_list(vfs_cur, DB, names, 256), q, best = -1;
+      uint64_t bestnum = 0;
+      free(layout_before);
+      layout_before = NULL;
+      for (q = 0; q < nn; q++) {
+        size_t l = strlen(names[q]);
+        if (l > 4 && strcmp(names[q] + l - 4, ".log") == 0 && strtoull(names[q], NULL, 10) >= bestnum) {
+          bestnum = strtoull(names[q], NULL, 10);
+          best = q;
+        }
+      }
+      if (best >= 0) {
+        char pth[300];
+        snprintf(pth, sizeof(pth), "%s/%s", DB, names[best]);
+        if (vfs_inode(vfs_cur, vfs_lookup(vfs_cur, pth))->len == 0)
+          ldb_property(h.db, "leveldb.sstables", &layout_before);
+      }
+    }
     rc = kh_apply(&h, op);
     obs = vh_mix(obs, (uint64_t)rc);
+    if (o_layout && op->kind == OP_REOPEN && layout_before && rc == LDB_OK) {
+      char *after = NULL;
+      ldb_property(h.db, "leveldb.sstables", &after);
+      n_reopen_layout_checks++;
+      if (!after || strcmp(after, layout_before) != 0) {
+        fail(x, "reopen-changes-layout", "closing and reopening with an empty write buffer changed the reported level structure");
+        if (after) ldb_free(after);
+        break;
+      }
+      ldb_free(after);
+    }
     if (rc != LDB_OK) {
       char m[300];
       vh_buf_t b;
@@ -404,6 +442,10 @@ body(void *arg) {
       if (!ko_scan(&h, &h.model, NULL, NULL, 0)) { fail(x, "scan-mismatch", h.err); break; }
       if (!ko_held_iters(&h)) { fail(x, "held-iterator-mismatch", h.err); break; }
       if (!ko_gets(&h, &h.model, NULL, 0)) { fail(x, "get-vs-scan-mismatch", h.err); break; }
+    }
+    if (o_layout) {
+      char e[500];
+      if (!lay_check(h.db, DB, &cfg, &lay_stats, e, sizeof(e))) { fail(x, "layout-malformed", e); break; }
     }
     if (o_files) {
       char e[400];
@@ -655,6 +697,7 @@ main(int argc, char **argv) {
   o_iter = strstr(orc, "iter") != NULL;
   o_cursor = strstr(orc, "cursor") != NULL;
   o_files = strstr(orc, "files") != NULL;
+  o_layout = strstr(orc, "layout") != NULL;
   depth = (int)drv_opt_long("depth", 3);
   ndepth = (int)drv_opt_long("ndepth", 0);
   cursor_len = (int)drv_opt_long("cursor-len", 2);
@@ -773,16 +816,16 @@ main(int argc, char **argv) {
     vb_free(&b);
   }
   {
-    char r[900];
+    char r[1400];
     snprintf(r, sizeof(r),
              "\"evaluations\":%llu,\"states\":%llu,\"transitions\":%llu,\"traces_validated_against_impl\":%llu,"
              "\"duplicate_states_pruned\":%llu,\"replay_twice_checks\":%llu,\"scheduling_points\":%llu,"
              "\"cursor_sequences\":%llu,\"cursor_full_signatures\":%llu,\"layout_signatures\":%llu,"
-             "\"plan_items\":%d,\"max_depth_dedup\":%d,\"max_depth_nodedup\":%d,\"max_level_reached\":%d,\"alphabet_size\":%d,\"exhaustive\":%s",
+             "\"tables_decoded\":%llu,\"table_entries_checked\":%llu,\"reopen_layout_checks\":%llu,\"plan_items\":%d,\"max_depth_dedup\":%d,\"max_depth_nodedup\":%d,\"max_level_reached\":%d,\"alphabet_size\":%d,\"exhaustive\":%s",
              (unsigned long long)n_exec, (unsigned long long)n_states, (unsigned long long)n_trans,
              (unsigned long long)n_exec, (unsigned long long)n_dup, (unsigned long long)n_replay2,
              (unsigned long long)n_points, (unsigned long long)n_cursor_seqs, (unsigned long long)n_cursor_sigs,
-             (unsigned long long)n_layout_sigs, n_plan_items, max_depth_done, max_ndepth_done, max_level_seen, nalpha,
+             (unsigned long long)n_layout_sigs, (unsigned long long)lay_stats.files, (unsigned long long)lay_stats.entries, (unsigned long long)n_reopen_layout_checks, n_plan_items, max_depth_done, max_ndepth_done, max_level_seen, nalpha,
              stop_now ? "false" : "true");
     drv_result(r);
   }
